@@ -189,4 +189,6 @@ def cases(draw, max_cells=22, max_genes=7, max_leaves=7):
         datasets = ds
         ds_metadata = draw(st.booleans())
     return {'tree': tree, 'genes': genes, 'cells': cells, 'labels': labels, 'cells_as_int': cells_as_int,
+            'obs_index_name': draw(st.sampled_from([None, None, None, 'cell_label'])),
+            'var_index_name': draw(st.sampled_from([None, None, None, 'gene_identifier'])),
             'x': x, 'parts': parts, 'datasets': datasets, 'ds_metadata': ds_metadata}
